@@ -58,7 +58,17 @@ def build_ws(vw, n):
                                                    "func emit(b *vbuf, s string) {\n\tb.Write([]byte(s))\n}\n\ntype vkind interface{ kind() int }\n\nfunc classify(x interface{}) int {\n\tswitch x.(type) {\n\tcase vkind:\n\t\treturn 1\n\tcase *vbuf:\n\t\treturn 2\n\t}\n\treturn 0\n}\n")
     open(os.path.join(d, "export_test.go"), "w").write("package mix\n\nfunc (b *vbuf) WriteString(s string) (int, error) { return b.Write([]byte(s)) }\n\nfunc (b *vbuf) kind() int { return 7 }\n")
     open(os.path.join(d, "cmdmain", "main.go"), "w").write("package main\n\nfunc main() {}\n\n" + body % "g")
+    # two packages of one run that spell a type the same way but give it different sizes (either side of every size
+    # threshold used below): a front-end that keeps checkers alive across packages must not carry a measure over
+    for name, n in (("ta", 96), ("tb", 1), ("tc", 600), ("td", 18)):
+        os.makedirs(os.path.join(ws, "twins", name))
+        open(os.path.join(ws, "twins", name, "t.go"), "w").write(
+            "package %s\n\ntype options struct{ raw [%d]byte }\n\ntype table [4]options\n\n"
+            "func apply(o options, os []options, t table) int {\n\tn := 0\n\tfor _, x := range os {\n\t\tn += len(x.raw)\n\t}\n\tfor _, y := range t {\n\t\tn += len(y.raw)\n\t}\n\treturn n + len(o.raw)\n}\n" % (name, n))
     return ws, pats + ["./mix", "./mix/cmdmain"]
+
+
+TWINS = ["./twins/ta", "./twins/tb", "./twins/tc", "./twins/td"]
 
 
 def run(tier):
@@ -146,6 +156,7 @@ func pkgDependent(m dsl.Matcher) {
         dd = ",".join(r.sample(names, r.randint(0, 3)) + r.sample(["#style", "#experimental", "#opinionated"], r.randint(0, 1)))
         confs.append({"all": r.random() < 0.3, "enable": e, "disable": dd, "params": {}, "go": r.choice([None, "1.15", "1.18", "go1.21"])})
     groups = [pats[:3] + ["./mix", "./mix/cmdmain"], ["./mix"], pats[3:]]
+    groups += [TWINS, TWINS[::-1], [TWINS[1], TWINS[3], TWINS[0], TWINS[2]]]
     if tier == "thorough":
         groups += [[p] for p in pats[:20]]
 
